@@ -5,8 +5,7 @@
   `Entity.artifact2destination`.
 
   Byte strings are `List Nat` (`Codec.Bytes`); Python raising = `none`.  External functions are
-  parameters: `deflate`/`inflate` (zlib, raw DEFLATE), `sha1`, and `netlocOk` (whether
-  `urllib.parse.urlparse(destination)` raises: bracket / NFKC checks of the network location).
+  parameters: `deflate`/`inflate` (zlib, raw DEFLATE) and `sha1`.
   The HTML templates come from `Gen/FormSpec.lean` (regenerated from `saml2.pack` on every run).
 -/
 import PysamlModel.Model.Codec
@@ -94,9 +93,18 @@ structure Deflate where
   isBytes : ∀ b, IsBytes b → IsBytes (deflate b)
   nonempty : ∀ b, deflate b ≠ []
 
-/-- `destination + glue + query`: `&` when `urlparse(destination).query` is non-empty, else `?`. -/
-def glueUrl (netlocOk : Bool) (loc query : Bytes) : Option Bytes :=
-  if netlocOk then some (loc ++ (if locQueryTruthy loc then 38 else 63) :: query) else none
+/-- `pack.add_query(location, query)`: the query goes before the `#fragment`; glue is `?` when the
+    part before the fragment has no `?`, nothing when the existing query (the text after the first
+    `?`) is empty or ends in `&`, else `&`. -/
+def addQuery (loc query : Bytes) : Bytes :=
+  let base := loc.takeWhile (· != 35)                    -- `location.partition("#")[0]`
+  let frag := loc.dropWhile (· != 35)                    -- `"#" + fragment`, or empty
+  let existing := (base.dropWhile (· != 63)).drop 1      -- `location.partition("?")[2]`
+  let glue : Bytes :=
+    if !base.contains 63 then [63]
+    else if existing = [] ∨ existing.getLast? = some 38 then []
+    else [38]
+  base ++ glue ++ query ++ frag
 
 def withRelay (first : Bytes × Bytes) (rs : Bytes) : List (Bytes × Bytes) :=
   if rs.isEmpty then [first] else [first, (sRelayState, rs)]
@@ -108,14 +116,14 @@ def redirectArgs (deflate : Bytes → Bytes) (typ msg rs : Bytes) : Option (List
   else none
 
 /-- The `Location` header of `http_redirect_message` (no signature: that is C15). -/
-def redirectUrl (deflate : Bytes → Bytes) (netlocOk : Bool) (typ msg loc rs : Bytes) : Option Bytes :=
+def redirectUrl (deflate : Bytes → Bytes) (typ msg loc rs : Bytes) : Option Bytes :=
   match redirectArgs deflate typ msg rs with
   | none => none
-  | some args => glueUrl netlocOk loc (urlencode args)
+  | some args => some (addQuery loc (urlencode args))
 
 /-- `HTTPBase.use_http_artifact(message, destination, relay_state)["url"]`. -/
-def artifactUrl (netlocOk : Bool) (art loc rs : Bytes) : Option Bytes :=
-  glueUrl netlocOk loc (urlencode (withRelay (sSAMLart, art) rs))
+def artifactUrl (art loc rs : Bytes) : Bytes :=
+  addQuery loc (urlencode (withRelay (sSAMLart, art) rs))
 
 /-! ### `Entity.unravel` -/
 
